@@ -128,10 +128,28 @@ class OverloadSpec:
         self.kind = kind           # function | method | extension
         self.no_kwargs = no_kwargs
         self.name = name
+        self.reg = 'decor'         # decor: name and call kind come from decorators | flags: from register_function's
+        #                            name= / function= / method= arguments (the decorators say something else)
+        self.twin = False          # a second registration of the callable built for the overload of the same tag
 
     def desc(self):
-        return {'tag': self.tag, 'kind': self.kind, 'no_kwargs': self.no_kwargs,
-                'decor_seed': getattr(self, 'decor_seed', None), 'params': [p.desc() for p in self.params]}
+        d = {'tag': self.tag, 'kind': self.kind, 'no_kwargs': self.no_kwargs,
+             'decor_seed': getattr(self, 'decor_seed', None), 'params': [p.desc() for p in self.params]}
+        if self.reg != 'decor':
+            d['reg'] = self.reg
+        if self.twin:
+            d['twin'] = True
+        return d
+
+    def register(self, ctx, fn, exclusive=False):
+        kw = {'exclusive': True} if exclusive else {}
+        if self.reg == 'flags':
+            flags = {'function': {'function': True, 'method': False},       # decorated as a method
+                     'method': {'function': False, 'method': True},         # not decorated
+                     'extension': {'function': True}}[self.kind]            # decorated as a method
+            ctx.register_function(fn, name=self.name, **flags, **kw)
+        else:
+            ctx.register_function(fn, **kw)
 
     def build(self):
         """returns a python function carrying the yaql decorations; calling it returns
@@ -173,6 +191,12 @@ class OverloadSpec:
                 fn = yspecs.parameter(p.name, yt.Lambda())(fn)
             else:
                 fn = yspecs.parameter(p.name, smart_type(p.tname, p.nullable))(fn)
+        if self.reg == 'flags':
+            if self.kind in ('function', 'extension'):
+                fn = yspecs.method(fn)
+            if self.no_kwargs:
+                fn = yspecs.no_kwargs(fn)
+            return fn
         if self.kind == 'method':
             fn = yspecs.method(fn)
         elif self.kind == 'extension':
